@@ -60,8 +60,22 @@ class Ctx:
         if text not in self.assumptions:
             self.assumptions.append(text)
 
+    def waive(self, rid, reason):
+        """A syntactic rule that cannot recognise the shape of the code, whose clause a fold rule of the same property decides anyway:
+        the rule is reported as undecided (ANALYSIS-LIMIT) and its floor is not enforced.  Never used for a rule that reported something."""
+        r = self.rules.get(rid)
+        if r is None or r['violations']:
+            return False
+        r['waived'] = reason
+        self.limits.append({'rule': rid, 'construct': 'shape', 'message': reason})
+        r['limits'] += 1
+        r['obligations'] += 1
+        return True
+
     def check_floors(self):
         for rid, r in self.rules.items():
+            if r.get('waived'):
+                continue
             # the floor guards against a rule passing vacuously; a rule that reports a violation is not vacuous
             if r['violations'] == 0 and r['obligations'] < r['floor']:
                 raise AnalysisError('rule %s found %d instances, fewer than the %d confirmed on the pinned tree' %
